@@ -6,9 +6,12 @@
 //     diffed against the Lean checker `Locks.checkVar` (driver drv_c09) on the same lines:
 //
 //     cfg facts
-//     fact <var> <r|w> <lock:W,lock:R,...|-> <site>   -> ok
+//     fact <var> <r|u|w|x> <lock:W,lock:R,...|-> <site> -> ok   (r read, u one-statement read-modify-write,
+//                                                               w plain store, x split update)
 //     verdict <var>                                    -> disciplined <lock> | undisciplined | novar
 //     all                                              -> all-disciplined | undisciplined <var> ...
+//     updates                                          -> updates-atomic | split <var> ...
+//     counter <var>                                    -> counter | not-counter | novar
 //     count                                            -> <number of facts>
 //
 //     A variable is disciplined when one fixed lock is held at every access, exclusively at every write;
@@ -27,6 +30,7 @@ import (
 
 type lfact struct {
 	v     int
+	kind  byte // r u w x
 	write bool
 	locks map[int]bool // lock -> exclusive
 }
@@ -77,14 +81,14 @@ func (t *table) verdict(v int) (int, bool, bool) {
 func (t *table) Op(f []string) string {
 	switch f[0] {
 	case "fact":
-		if len(f) != 5 || (f[2] != "r" && f[2] != "w") {
+		if len(f) != 5 || len(f[2]) != 1 || !strings.Contains("ruwx", f[2]) {
 			return "bad-op"
 		}
 		v, err := strconv.Atoi(f[1])
 		if err != nil || v < 0 {
 			return "bad-op"
 		}
-		lf := lfact{v: v, write: f[2] == "w", locks: map[int]bool{}}
+		lf := lfact{v: v, kind: f[2][0], write: f[2] != "r", locks: map[int]bool{}}
 		if f[3] != "-" {
 			for _, p := range strings.Split(f[3], ",") {
 				q := strings.Split(p, ":")
@@ -139,6 +143,53 @@ func (t *table) Op(f []string) string {
 			s += " " + strconv.Itoa(v)
 		}
 		return s
+	case "updates":
+		if len(f) != 1 {
+			return "bad-op"
+		}
+		bad := map[int]bool{}
+		for _, x := range t.facts {
+			if x.kind == 'x' {
+				bad[x.v] = true
+			}
+		}
+		if len(bad) == 0 {
+			return "updates-atomic"
+		}
+		var vs []int
+		for v := range bad {
+			vs = append(vs, v)
+		}
+		sort.Ints(vs)
+		s := "split"
+		for _, v := range vs {
+			s += " " + strconv.Itoa(v)
+		}
+		return s
+	case "counter":
+		if len(f) != 2 {
+			return "bad-op"
+		}
+		v, err := strconv.Atoi(f[1])
+		if err != nil || v < 0 {
+			return "bad-op"
+		}
+		seen, ok := false, true
+		for _, x := range t.facts {
+			if x.v == v {
+				seen = true
+				if x.write && x.kind != 'u' {
+					ok = false
+				}
+			}
+		}
+		if !seen {
+			return "novar"
+		}
+		if ok {
+			return "counter"
+		}
+		return "not-counter"
 	case "count":
 		if len(f) != 1 {
 			return "bad-op"
